@@ -350,4 +350,22 @@ example : (sync exP (sync exP {} exChain 4 4) exFork 5 5).rows =
     [{ key := 7, block := 2, payload := 70 }, { key := 9, block := 5, payload := 90 }] := by decide
 example : (sync exP (sync exP {} exChain 4 4) exFork 5 5).pos = some (5, 105) := by decide
 
+/-! ### the open finding, in the model
+
+The hypothesis `StepOK.agree` cannot be dropped: a head that is two or more past the position is synced without
+any check of the stored hash.  After a fork whose first new head is at the position (so nothing is stored and no
+reorg is seen, `detects` needs head = position + 1), the next head two past it is appended to the abandoned block's
+rows.  The same history fails on the implementation (known finding `reorg-missed-when-head-skips-position+1`). -/
+
+def openA : Chain := fun n => { hash := n + 1, parent := n, evs := if n = 3 then [(9, 90)] else [] }
+def openB : Chain := fun n =>
+  if n ≤ 2 then openA n else { hash := 100 + n, parent := if n = 3 then 3 else 99 + n, evs := [] }
+def openP : P := { depth := 2, first := 0 }
+def openSt : St := sync openP (sync openP (sync openP {} openA 3 3) openB 3 3) openB 5 5
+
+/-- the position is on the canonical chain `openB`, yet the rows still hold the event of the abandoned block 3 -/
+theorem C15_open_finding_witness :
+    openSt.pos = some (5, (openB 5).hash) ∧ openSt.rows = [{ key := 9, block := 3, payload := 90 }] ∧
+      expected openP openB 5 = [] := by decide
+
 end Shutter.Properties.C15
